@@ -1,7 +1,7 @@
 """C01 - parallel (multi-thread) results equal the sequential execution."""
 from props import runlib
 
-THEOREMS = ["RootSim.C01.history_stays_sorted", "RootSim.C01.forward_records_outputs", "RootSim.C01.matchStraggler_spec", "RootSim.C01.lp_state_is_fold",
+THEOREMS = ["RootSim.C01.history_stays_sorted", "RootSim.C01.matchAnti_spec", "RootSim.C01.forward_records_outputs", "RootSim.C01.matchStraggler_spec", "RootSim.C01.lp_state_is_fold",
             "RootSim.C05LP.run_exact", "RootSim.C05LP.rollback_exact"]
 
 THEOREMS_D = ['RootSim.PrefixUnique.prefix_unique', 'RootSim.PrefixUnique.prefix_unique_V2s', 'RootSim.PrefixUnique.history_unique', 'RootSim.PrefixUnique.exists_sequential_run', 'RootSim.PrefixUnique.v2_only_counterexample', 'RootSim.PrefixUnique.seq_state_exact']
